@@ -43,15 +43,29 @@ func (s *TrieSpec) history() (phase1, phase2 []KV) {
 		return nil, s.KVs
 	}
 	r := lib.NewRNG(s.History)
+	// a third of the final entries is written in the first phase with another value (overwritten later), a
+	// third with its final value and NOT touched again (so that part of the trie keeps the hashes cached by
+	// the commit / rehash in the middle while keys next to it are deleted and inserted), a third only in the
+	// second phase
+	settled := map[string]bool{}
+	var settledKeys []string
 	for _, kv := range s.KVs {
-		if r.Bool() {
+		switch r.Intn(4) {
+		case 0:
 			phase1 = append(phase1, KV{K: kv.K, V: genValue(r)}) // overwritten later
+		case 1, 2:
+			phase1 = append(phase1, kv)
+			settled[kv.K] = true
+			settledKeys = append(settledKeys, kv.K)
 		}
 	}
 	var extras []string
 	for i := 0; i < 1+r.Intn(4); i++ {
 		k := randBits(r, s.Height)
-		if len(s.KVs) > 0 && r.Bool() {
+		switch {
+		case len(settledKeys) > 0 && r.Chance(1, 2): // next to a key that stays as it is
+			k = divergingKey(r, lib.Pick(r, settledKeys), pickDepth(r, s.Height))
+		case len(s.KVs) > 0 && r.Bool():
 			k = divergingKey(r, lib.Pick(r, s.KVs).K, pickDepth(r, s.Height))
 		}
 		if s.truth(k) == "0" {
@@ -63,7 +77,11 @@ func (s *TrieSpec) history() (phase1, phase2 []KV) {
 	for _, k := range extras {
 		phase2 = append(phase2, KV{K: k, V: "0"})
 	}
-	phase2 = append(phase2, s.KVs...)
+	for _, kv := range s.KVs {
+		if !settled[kv.K] {
+			phase2 = append(phase2, kv)
+		}
+	}
 	lib.Shuffle(r, phase2)
 	// a deleted extra that is re-deleted, a final value written twice
 	if len(phase2) > 0 {
